@@ -604,3 +604,344 @@ Proof.
     + intros i Hi. cbn in Hi. inversion Hi. subst i. rewrite Hz2, Hz. cbn [option_map nleft root_id].
       rewrite ptr_is_false; [reflexivity|]. exact NR2.
 Qed.
+
+(* ------------------------------------------------------------------ the heap side: successor relinking *)
+Lemma h_place_sim : forall h2 c n m d b lroot nr nm pp,
+  hget h2 n = Some (mkNode d b (ctx_id c) (Some lroot) nr) ->
+  hget h2 m = Some nm ->
+  repc h2 c (Some n) -> ~ In n (cids c) -> ~ In m (cids c) -> NoDup (cids c) ->
+  m <> n -> lroot <> m -> lroot <> n -> ~ In lroot (cids c) ->
+  (forall z, nr = Some z -> z <> m /\ z <> n /\ z <> lroot /\ ~ In z (cids c)) ->
+  pp = match ctx_id c with Some g => Some (g, ptr_is (left h2 g) n) | None => None end ->
+  let h9 := fst (h_place h2 (ctx_root c (Some n)) pp n m) in
+  let rt4 := snd (h_place h2 (ctx_root c (Some n)) pp n m) in
+  hget h9 m = Some (mkNode (ndata nm) b (ctx_id c) (Some lroot) nr) /\
+  hget h9 lroot = option_map (w_par (Some m)) (hget h2 lroot) /\
+  (forall z, nr = Some z -> hget h9 z = option_map (w_par (Some m)) (hget h2 z)) /\
+  repc h9 c (Some m) /\ rt4 = ctx_root c (Some m) /\
+  (forall j, j <> m -> j <> lroot -> nr <> Some j -> ctx_id c <> Some j -> hget h9 j = hget h2 j).
+Proof.
+  intros h2 c n m d b lroot nr nm pp Hn Hm RC NIn NIm NDc Nmn Nlm Nln NIl Hz Epp.
+  unfold h_place. rewrite (bal_get _ _ _ Hn). cbn [nbal].
+  set (h3 := set_bal h2 m b).
+  assert (G3 : forall j, hget h3 j = if j =? m then Some (w_bal b nm) else hget h2 j).
+  { intros j. subst h3. rewrite hget_set_bal. rewrite Hm. reflexivity. }
+  assert (RC3 : repc h3 c (Some n)).
+  { eapply repc_ext; [|exact RC]. intros j Hj. rewrite G3. assert (j <> m) by (intros ->; contradiction). eqb_simp. reflexivity. }
+  assert (Epp3 : pp = match ctx_id c with Some g => Some (g, ptr_is (left h3 g) n) | None => None end).
+  { rewrite Epp. destruct (ctx_id c) as [g|] eqn:Eg; [|reflexivity]. unfold left. rewrite G3.
+    assert (g <> m) by (intros ->; apply NIm; apply ctx_id_in; assumption). eqb_simp. reflexivity. }
+  pose proof (set_pp_sim h3 c n (Some m) RC3 NIn NDc) as SP. cbn zeta in SP. rewrite <- Epp3 in SP.
+  destruct (set_pp h3 (ctx_root c (Some n)) pp (Some m)) as [h4 rt4]. cbn [fst snd] in *.
+  destruct SP as (RC4 & Ert & F4 & _).
+  assert (Ng : forall j, ctx_id c = Some j -> j <> m /\ j <> n /\ j <> lroot).
+  { intros j Ej. apply ctx_id_in in Ej. repeat split; intros ->; contradiction. }
+  assert (Hn4 : hget h4 n = Some (mkNode d b (ctx_id c) (Some lroot) nr)).
+  { rewrite F4. - rewrite G3. eqb_simp. assumption. - intros X. destruct (Ng n X) as (_ & A & _). congruence. }
+  assert (Hm4 : hget h4 m = Some (w_bal b nm)).
+  { rewrite F4. - rewrite G3. eqb_simp. reflexivity. - intros X. destruct (Ng m X) as (A & _). congruence. }
+  assert (P4 : parent h4 n = ctx_id c) by (unfold parent; rewrite Hn4; reflexivity). rewrite !P4.
+  set (h5 := set_parent h4 m (ctx_id c)).
+  assert (L5 : left h5 n = Some lroot).
+  { unfold left. subst h5. rewrite hget_set_parent. eqb_simp. rewrite Hn4. reflexivity. }
+  rewrite !L5.
+  set (h6 := set_left h5 m (Some lroot)).
+  assert (G6 : forall j, hget h6 j = if j =? m then Some (mkNode (ndata nm) b (ctx_id c) (Some lroot) (nright nm)) else hget h4 j).
+  { intros j. subst h6 h5. rewrite hget_set_left, !hget_set_parent. eqb_simp. rewrite Hm4. cbn.
+    destruct (j =? m); reflexivity. }
+  assert (L6 : left h6 n = Some lroot).
+  { unfold left. rewrite G6. eqb_simp. rewrite Hn4. reflexivity. }
+  rewrite !L6.
+  set (h7 := set_parent h6 lroot (Some m)).
+  assert (G7 : forall j, hget h7 j = if j =? lroot then option_map (w_par (Some m)) (hget h4 lroot) else hget h6 j).
+  { intros j. subst h7. rewrite hget_set_parent. rewrite G6. eqb_simp. reflexivity. }
+  assert (R7 : right h7 n = nr).
+  { unfold right. rewrite G7, G6. eqb_simp. rewrite Hn4. reflexivity. }
+  rewrite !R7.
+  set (h8 := set_right h7 m nr).
+  assert (G8 : forall j, hget h8 j = if j =? m then Some (mkNode (ndata nm) b (ctx_id c) (Some lroot) nr) else hget h7 j).
+  { intros j. subst h8. rewrite hget_set_right. rewrite G7, G6. eqb_simp. reflexivity. }
+  assert (R8 : right h8 n = nr).
+  { unfold right. rewrite G8, G7, G6. eqb_simp. rewrite Hn4. reflexivity. }
+  rewrite !R8.
+  assert (H4l : hget h4 lroot = hget h2 lroot).
+  { rewrite F4. - rewrite G3. eqb_simp. reflexivity. - intros X. destruct (Ng lroot X) as (_ & _ & A). congruence. }
+  assert (FR : forall j, j <> m -> j <> lroot -> ctx_id c <> Some j -> hget h8 j = hget h2 j).
+  { intros j A B C. rewrite G8, G7, G6. eqb_simp. rewrite F4 by assumption. rewrite G3. eqb_simp. reflexivity. }
+  destruct nr as [z|].
+  - destruct (Hz z eq_refl) as (Z1 & Z2 & Z3 & Z4).
+    assert (G9 : forall j, hget (set_parent h8 z (Some m)) j = if j =? z then option_map (w_par (Some m)) (hget h2 z) else hget h8 j).
+    { intros j. rewrite hget_set_parent. rewrite FR; [reflexivity|assumption|assumption|].
+      intros X. apply ctx_id_in in X. contradiction. }
+    split; [rewrite G9, G8; eqb_simp; reflexivity|].
+    split; [rewrite G9, G8, G7; eqb_simp; rewrite H4l; reflexivity|].
+    split; [intros z' Ez; inversion Ez; subst z'; rewrite G9; eqb_simp; reflexivity|].
+    split; [|split; [assumption|]].
+    + eapply repc_ext; [|exact RC4]. intros j Hj. rewrite G9, G8, G7, G6.
+      assert (j <> z) by (intros ->; contradiction). assert (j <> m) by (intros ->; contradiction).
+      assert (j <> lroot) by (intros ->; contradiction). eqb_simp. reflexivity.
+    + intros j A B C D. rewrite G9. assert (j <> z) by congruence. eqb_simp. apply FR; assumption.
+  - split; [rewrite G8; eqb_simp; reflexivity|].
+    split; [rewrite G8, G7; eqb_simp; rewrite H4l; reflexivity|].
+    split; [intros z' Ez; discriminate|].
+    split; [|split; [assumption|]].
+    + eapply repc_ext; [|exact RC4]. intros j Hj. rewrite G8, G7, G6.
+      assert (j <> m) by (intros ->; contradiction).
+      assert (j <> lroot) by (intros ->; contradiction). eqb_simp. reflexivity.
+    + intros j A B C D. apply FR; assumption.
+Qed.
+
+Lemma ctx_id_capp : forall c1 c2, ctx_id (capp c1 c2) = match c1 with Top => ctx_id c2 | _ => ctx_id c1 end.
+Proof. destruct c1; reflexivity. Qed.
+
+Lemma ctx_root_capp : forall c1 c2 x, ctx_root (capp c1 c2) x = ctx_root c2 (ctx_root c1 x).
+Proof. induction c1 as [|i d b r c IH|i d b l c IH]; intros c2 x; cbn [capp ctx_root]; [reflexivity| |]; apply IH. Qed.
+
+Lemma occ_perm : forall l1 l2 x, Permutation l1 l2 -> occ l1 x = occ l2 x.
+Proof. intros l1 l2 x P. unfold occ. apply Permutation_count_occ. assumption. Qed.
+
+(* the pure facts about the context of the successor *)
+Lemma replace_pure : forall st fs n c d b l r cs m dm bm rm,
+  located st fs n c d b l r -> r = plug cs (N m dm bm E rm) -> spine cs ->
+  let cc := capp cs (CR m dm b l c) in
+  NoDup (ids rm ++ cids cc) /\ avl rm /\ avlc cc (height rm + 1) /\
+  (forall j, In j (ids rm ++ cids cc) <-> In j (ids (root fs)) /\ j <> n) /\
+  NoDup (m :: ids rm ++ cids cs) /\
+  (forall j, In j (ids r) <-> j = m \/ In j (ids rm) \/ In j (cids cs)).
+Proof.
+  intros st fs n c d b l r cs m dm bm rm L Er S cc.
+  destruct L as [HT Hn Rl Rr RC ND Al Ar Hb Rb AC Hroot IN].
+  assert (PR : Permutation (ids r) (m :: ids rm ++ cids cs)).
+  { rewrite Er. eapply Permutation_trans; [apply ids_plug_perm|]. rewrite ids_N. reflexivity. }
+  assert (INr : forall j, In j (ids r) <-> j = m \/ In j (ids rm) \/ In j (cids cs)).
+  { intros j. split; intros X.
+    - apply (Permutation_in _ PR) in X. cbn [In] in X. rewrite in_app_iff in X. intuition congruence.
+    - apply (Permutation_in _ (Permutation_sym PR)). cbn [In]. rewrite in_app_iff. intuition congruence. }
+  assert (OC : forall x, (occ (ids l) x + (Nat.b2n (Z.eqb n x) + (occ (m :: ids rm ++ cids cs) x + occ (cids c) x)) <= 1)%nat).
+  { intros x. pose proof (nodup_occ _ ND x) as X. rewrite !occ_app, occ_cons, occ_app in X.
+    rewrite (occ_perm _ _ x PR) in X. exact X. }
+  assert (ND1 : NoDup (ids rm ++ cids cc)).
+  { subst cc. rewrite cids_capp. cbn [cids].
+    apply (proj2 (NoDup_count_occ Z.eq_dec _)). intros x. specialize (OC x).
+    change (count_occ Z.eq_dec ?l x) with (occ l x).
+    rewrite !occ_app, occ_cons, occ_app. rewrite occ_cons, occ_app in OC. lia. }
+  assert (ND2 : NoDup (m :: ids rm ++ cids cs)).
+  { apply (proj2 (NoDup_count_occ Z.eq_dec _)). intros x. specialize (OC x).
+    change (count_occ Z.eq_dec ?l x) with (occ l x). lia. }
+  rewrite Er in Ar. apply avl_plug in Ar. destruct Ar as (Am & ACs).
+  cbn [avl] in Am. destruct Am as (_ & Arm & _ & _).
+  split; [assumption|]. split; [assumption|]. split; [|split; [|split; assumption]].
+  - subst cc. pose proof (height_nonneg rm).
+    replace (height rm + 1) with (height (N m dm bm E rm)) by (cbn [height]; lia).
+    apply avlc_capp. split; [assumption|]. cbn [avlc]. rewrite <- Er. repeat split; try assumption; lia.
+  - intros j. subst cc. rewrite cids_capp. cbn [cids]. rewrite IN. rewrite INr.
+    assert (N1 : In j (ids l) -> j <> n) by (intros X; nd_neq ND).
+    assert (N3 : In j (cids c) -> j <> n) by (intros X; nd_neq ND).
+    assert (N2 : In j (ids r) -> j <> n) by (intros X; nd_neq ND).
+    rewrite INr in N2.
+    repeat first [rewrite in_app_iff | progress cbn [In]]. assert (EM : m = j <-> j = m) by (split; congruence). rewrite EM. tauto.
+Qed.
+
+Lemma h_replace_sim : forall st fs n c d b l r cs m dm bm rm,
+  located st fs n c d b l r -> l <> E -> r = plug cs (N m dm bm E rm) -> spine cs ->
+  let cc := capp cs (CR m dm b l c) in
+  exists rp, parent (hp st) m = Some rp /\
+    let res := h_replace (hp st) (hroot st) n m rp in
+    let h9 := fst (fst (fst res)) in
+    rep h9 rm (ctx_id cc) /\ repc h9 cc (root_id rm) /\ snd (fst (fst res)) = ctx_root cc (root_id rm) /\
+    Some (snd (fst res)) = ctx_id cc /\ snd res = dbal_of cc (-1) /\
+    (forall j, ~ In j (ids (root fs)) -> hget h9 j = hget (hp st) j).
+Proof.
+  intros st fs n c d b l r cs m dm bm rm L NEl Er S cc.
+  destruct (replace_pure st fs n c d b l r cs m dm bm rm L Er S) as (_ & _ & _ & _ & NDr & INr).
+  destruct L as [HT Hn Rl Rr RC ND Al Ar Hb Rb AC Hroot IN].
+  set (h := hp st) in *.
+  destruct l as [|lroot ld lb ll lr]; [congruence|]. clear NEl.
+  cbn [root_id] in Hn.
+  (* the successor node *)
+  assert (RT : rep h (plug (capp cs (CR n d b (N lroot ld lb ll lr) c)) (N m dm bm E rm)) None).
+  { rewrite plug_capp. cbn [plug]. rewrite <- Er. apply rep_plug. cbn [rep root_id]. repeat split; try assumption; apply Rl. }
+  apply rep_plug in RT. destruct RT as (Rm & RCm). cbn [rep root_id] in Rm. destruct Rm as (Hm & _ & Rrm).
+  rewrite ctx_id_capp in Hm.
+  assert (Im : In m (ids r)) by (apply INr; left; reflexivity).
+  assert (Nmn : m <> n) by nd_neq ND.
+  assert (NIn : ~ In n (cids c)) by (intros X; nd_absurd ND n).
+  assert (NIm : ~ In m (cids c)) by (intros X; nd_absurd ND m).
+  assert (NDc : NoDup (cids c)) by (apply nodup_app_disj in ND; destruct ND as (_ & ND & _); inversion ND as [|? ? _ ND2]; apply nodup_app_disj in ND2; tauto).
+  rewrite ids_N in ND.
+  assert (Nlm : lroot <> m) by nd_neq ND.
+  assert (Nln : lroot <> n) by nd_neq ND.
+  assert (NIl : ~ In lroot (cids c)) by (intros X; nd_absurd ND lroot).
+  assert (Ppar : parent h n = ctx_id c) by (unfold parent; rewrite Hn; reflexivity).
+  assert (Efin : forall h9, rep h9 (N m dm b (N lroot ld lb ll lr) (unmin r)) (ctx_id c) -> repc h9 c (Some m) ->
+            rep h9 rm (ctx_id cc) /\ repc h9 cc (root_id rm)).
+  { intros h9 A B. apply rep_plug. subst cc. rewrite plug_capp. cbn [plug].
+    replace (plug cs rm) with (unmin r) by (rewrite Er; apply (unmin_plug cs (N m dm bm E rm) S); discriminate).
+    apply rep_plug. cbn [root_id]. split; assumption. }
+  assert (Ert : ctx_root cc (root_id rm) = ctx_root c (Some m)).
+  { subst cc. rewrite ctx_root_capp. reflexivity. }
+  unfold h_replace. rewrite Ppar. rewrite Hroot.
+  destruct cs as [|k dk bk rk cs1|]; [| |cbn in S; contradiction].
+  - (* the successor is n's right child *)
+    cbn [plug] in Er. cbn [ctx_id capp] in Hm.
+    exists n. split; [unfold parent; rewrite Hm; reflexivity|].
+    cbn zeta. unfold h_unlink.
+    assert (PL : ptr_is (left h n) m = false).
+    { unfold left. rewrite Hn. cbn [nleft ptr_is]. apply Z.eqb_neq. assumption. }
+    rewrite !PL. rewrite Z.eqb_refl.
+    assert (RM : right h m = root_id rm) by (unfold right; rewrite Hm; reflexivity). rewrite !RM.
+    set (h1 := set_right h n (root_id rm)).
+    assert (G1 : forall j, hget h1 j = if j =? n then Some (mkNode d b (ctx_id c) (Some lroot) (root_id rm)) else hget h j).
+    { intros j. subst h1. rewrite hget_set_right. rewrite Hn. reflexivity. }
+    assert (RM1 : right h1 m = root_id rm) by (unfold right; rewrite G1; eqb_simp; rewrite Hm; reflexivity).
+    assert (PM1 : parent h1 m = Some n) by (unfold parent; rewrite G1; eqb_simp; rewrite Hm; reflexivity).
+    rewrite !RM1, !PM1.
+    set (h2 := match root_id rm with Some c0 => set_parent h1 c0 (Some n) | None => h1 end).
+    assert (G2 : forall j, hget h2 j = if ptr_is (root_id rm) j then option_map (w_par (Some n)) (hget h j) else hget h1 j).
+    { intros j. subst h2. destruct (root_id rm) as [y|] eqn:Ey; cbn [ptr_is]; [|reflexivity].
+      rewrite hget_set_parent. rewrite G1. apply root_id_in in Ey. rewrite Er, ids_N in ND.
+      assert (y <> n) by nd_neq ND. destruct (Z.eq_dec j y) as [->|Ny]; eqb_simp; reflexivity. }
+    clearbody h2. 
+    rewrite Er, ids_N in ND. change (ids E) with (@nil Z) in ND. cbn [app] in ND.
+    assert (NRn : root_id rm <> Some n) by (intros X; apply root_id_in in X; nd_absurd ND n).
+    assert (NRm : root_id rm <> Some m) by (intros X; apply root_id_in in X; nd_absurd ND m).
+    assert (Hn2 : hget h2 n = Some (mkNode d b (ctx_id c) (Some lroot) (root_id rm))).
+    { rewrite G2, G1. rewrite (ptr_is_false _ _ NRn). eqb_simp. reflexivity. }
+    assert (Hm2 : hget h2 m = Some (mkNode dm bm (Some n) None (root_id rm))).
+    { rewrite G2, G1. rewrite (ptr_is_false _ _ NRm). eqb_simp. assumption. }
+    assert (Fc : forall j, In j (cids c) -> hget h2 j = hget h j).
+    { intros j Hj. rewrite G2, G1. assert (j <> n) by nd_neq ND.
+      rewrite ptr_is_false by (intros X; apply root_id_in in X; nd_absurd ND j). eqb_simp. reflexivity. }
+    assert (RC2 : repc h2 c (Some n)) by (eapply repc_ext; [|exact RC]; exact Fc).
+    assert (Epp : match ctx_id c with Some g => Some (g, ptr_is (left h g) n) | None => None end =
+                  match ctx_id c with Some g => Some (g, ptr_is (left h2 g) n) | None => None end).
+    { destruct (ctx_id c) as [g|] eqn:Eg; [|reflexivity]. unfold left. rewrite Fc by (apply ctx_id_in; assumption). reflexivity. }
+    pose proof (h_place_sim h2 c n m d b lroot (root_id rm) _
+                  (match ctx_id c with Some g => Some (g, ptr_is (left h g) n) | None => None end)
+                  Hn2 Hm2 RC2 NIn NIm NDc Nmn Nlm Nln NIl) as PS.
+    destruct PS as (P1 & P2 & P3 & P4 & P5 & P6).
+    { intros z Ez. apply root_id_in in Ez. repeat split; [nd_neq ND|nd_neq ND|nd_neq ND|intros X; nd_absurd ND z]. }
+    { exact Epp. }
+    destruct (h_place h2 (ctx_root c (Some n)) _ n m) as [h9 rt4]. cbn [fst snd ndata] in *.
+    assert (A1 : rep h9 (N m dm b (N lroot ld lb ll lr) (unmin r)) (ctx_id c)).
+    { rewrite Er. cbn [unmin]. cbn [rep root_id]. cbn [rep root_id] in Rl. destruct Rl as (Hl & Rll & Rlr).
+      assert (H2l : hget h2 lroot = hget h lroot).
+      { rewrite G2, G1. rewrite ptr_is_false by (intros X; apply root_id_in in X; nd_absurd ND lroot). eqb_simp. reflexivity. }
+      repeat split.
+      - exact P1.
+      - rewrite P2, H2l, Hl. reflexivity.
+      - eapply rep_ext; [|exact Rll]. intros j Hj. rewrite P6.
+        + rewrite G2, G1. rewrite ptr_is_false by (intros X; apply root_id_in in X; nd_absurd ND j).
+          assert (j <> n) by nd_neq ND. eqb_simp. reflexivity.
+        + nd_neq ND. + nd_neq ND. + intros X. apply root_id_in in X. nd_absurd ND j.
+        + intros X. apply ctx_id_in in X. nd_absurd ND j.
+      - eapply rep_ext; [|exact Rlr]. intros j Hj. rewrite P6.
+        + rewrite G2, G1. rewrite ptr_is_false by (intros X; apply root_id_in in X; nd_absurd ND j).
+          assert (j <> n) by nd_neq ND. eqb_simp. reflexivity.
+        + nd_neq ND. + nd_neq ND. + intros X. apply root_id_in in X. nd_absurd ND j.
+        + intros X. apply ctx_id_in in X. nd_absurd ND j.
+      - destruct rm as [|y dy by_ ly ry]; [exact I|]. cbn [rep root_id] in *. destruct Rrm as (Hy & Rly & Rry).
+        rewrite ids_N in ND. repeat split.
+        + rewrite (P3 y eq_refl). rewrite G2. cbn [ptr_is]. rewrite Z.eqb_refl. rewrite Hy. reflexivity.
+        + eapply rep_ext; [|exact Rly]. intros j Hj. rewrite P6.
+          * rewrite G2, G1. cbn [ptr_is]. assert (j <> n) by nd_neq ND. assert (y <> j) by nd_neq ND. eqb_simp. reflexivity.
+          * nd_neq ND. * nd_neq ND. * intros X. inversion X. subst. nd_absurd ND j.
+          * intros X. apply ctx_id_in in X. nd_absurd ND j.
+        + eapply rep_ext; [|exact Rry]. intros j Hj. rewrite P6.
+          * rewrite G2, G1. cbn [ptr_is]. assert (j <> n) by nd_neq ND. assert (y <> j) by nd_neq ND. eqb_simp. reflexivity.
+          * nd_neq ND. * nd_neq ND. * intros X. inversion X. subst. nd_absurd ND j.
+          * intros X. apply ctx_id_in in X. nd_absurd ND j. }
+    destruct (Efin h9 A1 P4) as (B1 & B2).
+    split; [exact B1|]. split; [exact B2|]. split; [rewrite Ert; exact P5|].
+    split; [reflexivity|]. split; [reflexivity|].
+    intros j Hj. rewrite IN in Hj. rewrite P6.
+    + rewrite G2, G1. rewrite ptr_is_false.
+      * assert (j <> n) by tauto. eqb_simp. reflexivity.
+      * intros X. apply root_id_in in X. apply Hj. right. right. left. rewrite Er, ids_N. in_tauto.
+    + intros ->. apply Hj. right. right. left. rewrite Er, ids_N. in_tauto.
+    + intros ->. apply Hj. left. rewrite ids_N. in_tauto.
+    + intros X. apply root_id_in in X. apply Hj. right. right. left. rewrite Er, ids_N. in_tauto.
+    + intros X. apply ctx_id_in in X. tauto.
+  - (* the successor is deeper in the right subtree *)
+    cbn [ctx_id capp] in Hm. cbn [spine] in S.
+    set (cs := CL k dk bk rk cs1) in *.
+    assert (NR : root_id r <> Some m).
+    { rewrite Er, root_id_plug. cbn [root_id]. destruct (ctx_root_in cs (Some m)) as (g & Eg & Ig); [discriminate|].
+      rewrite Eg. intros X. inversion X. subst g. inversion NDr as [|? ? Nm _]. apply Nm. apply in_or_app. right. assumption. }
+    assert (LM : leftmost r = Some m).
+    { rewrite Er. rewrite leftmost_spine; [reflexivity|exact S|discriminate]. }
+    assert (NDr' : NoDup (ids r)).
+    { apply nodup_app_disj in ND. destruct ND as (_ & ND' & _). inversion ND' as [|? ? _ ND2]. apply nodup_app_disj in ND2. tauto. }
+    assert (RM : right h m = root_id rm) by (unfold right; rewrite Hm; reflexivity).
+    destruct (unlink_inner r h (Some n) m (root_id rm) NDr' Rr LM NR RM) as (k' & Pk & Ik & Nkm & PL & UI).
+    assert (k' = k) by (unfold parent in Pk; rewrite Hm in Pk; cbn in Pk; congruence). subst k'.
+    cbn zeta in UI. destruct UI as (R2 & RI & F2 & M2 & IN2 & _).
+    exists k. split; [assumption|].
+    cbn zeta. unfold h_unlink. rewrite !PL. rewrite !RM.
+    assert (Nkn : k <> n) by nd_neq ND.
+    replace (k =? n) with false by (symmetry; apply Z.eqb_neq; assumption).
+    set (h1 := set_left h k (root_id rm)) in *.
+    assert (RM1 : right h1 m = root_id rm).
+    { unfold right. subst h1. rewrite hget_set_left. replace (m =? k) with false by (symmetry; apply Z.eqb_neq; congruence). rewrite Hm. reflexivity. }
+    assert (PM1 : parent h1 m = Some k).
+    { unfold parent. subst h1. rewrite hget_set_left. replace (m =? k) with false by (symmetry; apply Z.eqb_neq; congruence). rewrite Hm. reflexivity. }
+    rewrite !RM1, !PM1.
+    set (h2 := match root_id rm with Some y => set_parent h1 y (Some k) | None => h1 end) in *.
+    clearbody h2. 
+    assert (NInr : ~ In n (ids r)) by (intros X; nd_absurd ND n).
+    assert (Hn2 : hget h2 n = Some (mkNode d b (ctx_id c) (Some lroot) (root_id r))).
+    { rewrite F2 by assumption. assumption. }
+    assert (Hm2 : hget h2 m = Some (mkNode dm bm (Some k) None (root_id rm))) by (rewrite M2; assumption).
+    assert (Fc : forall j, In j (cids c) -> hget h2 j = hget h j).
+    { intros j Hj. apply F2. intros X. nd_absurd ND j. }
+    assert (RC2 : repc h2 c (Some n)) by (eapply repc_ext; [|exact RC]; exact Fc).
+    assert (Epp : match ctx_id c with Some g => Some (g, ptr_is (left h g) n) | None => None end =
+                  match ctx_id c with Some g => Some (g, ptr_is (left h2 g) n) | None => None end).
+    { destruct (ctx_id c) as [g|] eqn:Eg; [|reflexivity]. unfold left. rewrite Fc by (apply ctx_id_in; assumption). reflexivity. }
+    pose proof (h_place_sim h2 c n m d b lroot (root_id r) _
+                  (match ctx_id c with Some g => Some (g, ptr_is (left h g) n) | None => None end)
+                  Hn2 Hm2 RC2 NIn NIm NDc Nmn Nlm Nln NIl) as PS.
+    destruct PS as (P1 & P2 & P3 & P4 & P5 & P6).
+    { intros z Ez. split; [congruence|]. apply root_id_in in Ez. repeat split; [nd_neq ND|nd_neq ND|intros X; nd_absurd ND z]. }
+    { exact Epp. }
+    destruct (h_place h2 (ctx_root c (Some n)) _ n m) as [h9 rt4]. cbn [fst snd ndata] in *.
+    assert (NDu : NoDup (ids (unmin r))).
+    { rewrite Er. rewrite (unmin_plug cs (N m dm bm E rm) S) by discriminate. cbn [unmin].
+      apply nodup_plug. inversion NDr. assumption. }
+    assert (A1 : rep h9 (N m dm b (N lroot ld lb ll lr) (unmin r)) (ctx_id c)).
+    { cbn [rep root_id]. cbn [rep root_id] in Rl. destruct Rl as (Hl & Rll & Rlr).
+      assert (H2l : hget h2 lroot = hget h lroot) by (apply F2; intros X; nd_absurd ND lroot).
+      split; [rewrite RI; exact P1|]. split; [split; [|split]|].
+      - rewrite P2, H2l, Hl. reflexivity.
+      - eapply rep_ext; [|exact Rll]. intros j Hj. rewrite P6.
+        + apply F2. intros X. nd_absurd ND j.
+        + nd_neq ND. + nd_neq ND. + intros X. apply root_id_in in X. nd_absurd ND j.
+        + intros X. apply ctx_id_in in X. nd_absurd ND j.
+      - eapply rep_ext; [|exact Rlr]. intros j Hj. rewrite P6.
+        + apply F2. intros X. nd_absurd ND j.
+        + nd_neq ND. + nd_neq ND. + intros X. apply root_id_in in X. nd_absurd ND j.
+        + intros X. apply ctx_id_in in X. nd_absurd ND j.
+      - destruct (unmin r) as [|z dz bz lz rz] eqn:EU; [exact I|].
+        cbn [root_id] in RI. cbn [rep root_id] in *. destruct R2 as (Hz & Rlz & Rrz).
+        rewrite ids_N in NDu.
+        assert (INz : forall j, In j (ids lz) \/ j = z \/ In j (ids rz) -> In j (ids r) /\ j <> m).
+        { intros j Hj. apply IN2. rewrite ids_N. rewrite in_app_iff. cbn [In]. intuition congruence. }
+        split; [rewrite (P3 z (eq_sym RI)), Hz; reflexivity|]. split.
+        + eapply rep_ext; [|exact Rlz]. intros j Hj. destruct (INz j (or_introl Hj)) as (X1 & X2). apply P6.
+          * assumption. * intros ->. nd_absurd ND lroot.
+          * rewrite <- RI. intros X. inversion X. subst j. nd_absurd NDu z.
+          * intros X. apply ctx_id_in in X. nd_absurd ND j.
+        + eapply rep_ext; [|exact Rrz]. intros j Hj. destruct (INz j (or_intror (or_intror Hj))) as (X1 & X2). apply P6.
+          * assumption. * intros ->. nd_absurd ND lroot.
+          * rewrite <- RI. intros X. inversion X. subst j. nd_absurd NDu z.
+          * intros X. apply ctx_id_in in X. nd_absurd ND j. }
+    destruct (Efin h9 A1 P4) as (B1 & B2).
+    split; [exact B1|]. split; [exact B2|]. split; [rewrite Ert; exact P5|].
+    split; [reflexivity|]. split; [reflexivity|].
+    intros j Hj. rewrite IN in Hj. rewrite P6.
+    + apply F2. tauto.
+    + intros ->. tauto.
+    + intros ->. apply Hj. left. rewrite ids_N. in_tauto.
+    + intros X. apply root_id_in in X. tauto.
+    + intros X. apply ctx_id_in in X. tauto.
+Qed.
